@@ -370,7 +370,16 @@ func mkExcl(r *hlib.SplitMix64, class string) exclCase {
 	c.NetBase, c.NetK = a, k
 	c.NetIP, c.NetMask = tgt.Hex(tgt.U32(a)), hex.EncodeToString(net.CIDRMask(k, 32))
 	n := 1 + r.Intn(12)
-	ls := tgt.RandExclude(r, a, k, n, class == "bad-line")
+	var ls []tgt.ExclLine
+	if class == "nested" {
+		// families of related entries (both orders); the target is big enough to hold the differences
+		a, k = tgt.RandNet4(r, 22, 27, true)
+		c.NetBase, c.NetK = a, k
+		c.NetIP, c.NetMask = tgt.Hex(tgt.U32(a)), hex.EncodeToString(net.CIDRMask(k, 32))
+		ls = tgt.RandExcludeNested(r, a, k, 1+r.Intn(3))
+	} else {
+		ls = tgt.RandExclude(r, a, k, n, class == "bad-line")
+	}
 	text := tgt.JoinLines(ls)
 	for _, l := range ls {
 		// the code's own cleaning expressions
@@ -416,6 +425,17 @@ func mkExcl(r *hlib.SplitMix64, class string) exclCase {
 	for _, l := range ls {
 		if l.Meaning == "net" {
 			extras = append(extras, net.IP(tgt.U32(l.Base)).To16(), tgt.U32(l.Base))
+			// the boundaries of every entry: first-1, first, last, last+1
+			hm := uint32(0)
+			if l.Prefix < 32 {
+				hm = (uint32(1) << uint(32-l.Prefix)) - 1
+			}
+			if l.Prefix == 0 {
+				hm = 0xffffffff
+			}
+			first := l.Base &^ hm
+			last := first | hm
+			extras = append(extras, tgt.U32(first-1), tgt.U32(first), tgt.U32(last), tgt.U32(last+1))
 		}
 	}
 	for _, x := range extras {
@@ -489,6 +509,35 @@ func main() {
 				c.Gen = &o
 			}
 			w.Put(c)
+		case "excl":
+			// excl:<hex of the file text>:<base>:<prefix>: the real parser + trie, membership over the net
+			f := strings.Split(rest, ":")
+			text, _ := hex.DecodeString(f[0])
+			var base uint32
+			var k int
+			fmt.Sscan(f[1], &base)
+			fmt.Sscan(f[2], &k)
+			c := exclCase{Kind: "excl", Class: "replay", NetBase: base, NetK: k}
+			ranger, err := command.VerifParseExcludeFile(func() (io.ReadCloser, error) {
+				return io.NopCloser(strings.NewReader(string(text))), nil
+			})
+			if err != nil {
+				c.ImplErr = err.Error()
+			} else {
+				c.ImplOK = true
+				size := 1 << uint(32-k)
+				member := make([]byte, size)
+				for i := 0; i < size; i++ {
+					ok, err := ranger.Contains(net.IP(tgt.U32(base + uint32(i))))
+					if err != nil {
+						member[i] = 2
+					} else if ok {
+						member[i] = 1
+					}
+				}
+				c.Member = hex.EncodeToString(member)
+			}
+			w.Put(c)
 		case "ips":
 			f := strings.Split(rest, ":")
 			nm := strings.SplitN(f[0], "/", 2)
@@ -528,8 +577,11 @@ func main() {
 	}
 	for i := 0; i < *nexcl; i++ {
 		class := "valid"
-		if i%6 == 5 {
+		switch i % 6 {
+		case 5:
 			class = "bad-line"
+		case 1, 3, 4:
+			class = "nested"
 		}
 		w.Put(mkExcl(r, class))
 	}
